@@ -625,6 +625,89 @@ Proof.
         repeat (match goal with |- context [String.eqb key ?s] => destruct (String.eqb key s) eqn:? end; cbn; try reflexivity).
 Qed.
 
+(* ---------------------------------------------------------------- update_conf: every user value is kept, any outline *)
+
+Lemma lookup_in k (d : dict) v : lookup k d = Some v -> In (k, v) d.
+Proof.
+  induction d as [|[k0 v0] r IH]; cbn; [discriminate|].
+  destruct (String.eqb k k0) eqn:E.
+  - apply String.eqb_eq in E. subst. intro H. inversion H. now left.
+  - intro H. right. now apply IH.
+Qed.
+
+Lemma py_keys_lookup d k v : py_keys (JDict d) -> lookup k d = Some v -> py_keys v.
+Proof.
+  intros P L. apply py_keys_dict in P as [_ P]. rewrite Forall_forall in P.
+  exact (P (k, v) (lookup_in _ _ _ L)).
+Qed.
+
+Lemma upd_base_set_key_other dd k k0 nv : String.eqb k k0 = false -> upd_base (set_key k0 nv dd) k = upd_base dd k.
+Proof. intro E. unfold upd_base. now rewrite lookup_set_key, E. Qed.
+
+(* one level of update_conf, for ANY default dictionary and ANY user dictionary with each key once:
+   the keys the user does not give keep their value; a key the user gives holds the user's value
+   converted, or -- for a dictionary -- the merge of that dictionary into what was there *)
+Lemma upd_level ud : forall dd cfg, NoDup (keys ud) -> upd (JDict dd) (JDict ud) = Ok cfg ->
+  exists cd, cfg = JDict cd /\
+    (forall k, ~ In k (keys ud) -> lookup k cd = lookup k dd) /\
+    (forall k v, lookup k ud = Some v ->
+       if is_dict v then exists nv, upd (upd_base dd k) v = Ok nv /\ lookup k cd = Some nv
+       else lookup k cd = Some (conv_special v)).
+Proof.
+  induction ud as [|[k0 v0] rest IH]; intros dd cfg ND U.
+  - rewrite upd_nil in U. inversion U; subst. exists dd. split; [reflexivity|]. split; [reflexivity|]. discriminate.
+  - cbn in ND. inversion ND as [|? ? Hnot ND']; subst.
+    assert (STEP : exists nv0, upd (JDict (set_key k0 nv0 dd)) (JDict rest) = Ok cfg /\
+                     (if is_dict v0 then upd (upd_base dd k0) v0 = Ok nv0 else nv0 = conv_special v0)).
+    { destruct (is_dict v0) eqn:D.
+      - destruct v0; try discriminate. rewrite upd_cons_dict in U.
+        destruct (upd (upd_base dd k0) (JDict d)) as [nv|e]; [|discriminate]. exists nv. auto.
+      - rewrite upd_cons_val in U by exact D. eauto. }
+    destruct STEP as (nv0 & U' & S0).
+    destruct (IH _ _ ND' U') as (cd & -> & Keep & Given). exists cd. split; [reflexivity|]. split.
+    + intros k Hk. cbn in Hk. rewrite Keep by tauto. rewrite lookup_set_key.
+      destruct (String.eqb k k0) eqn:E; [apply String.eqb_eq in E; subst; tauto | reflexivity].
+    + intros k v L. cbn [lookup] in L. destruct (String.eqb k k0) eqn:E.
+      * apply String.eqb_eq in E. subst k0. inversion L; subst v0.
+        rewrite (Keep k Hnot), lookup_set_key, String.eqb_refl.
+        destruct (is_dict v); [eauto | now rewrite S0].
+      * specialize (Given k v L). now rewrite upd_base_set_key_other in Given by exact E.
+Qed.
+
+(* EVERY USER VALUE IS KEPT, whatever the outline of the user's configuration (other keys at any
+   level, sides in any order, a side missing, ...): if update_conf returns at all, the value the
+   user gave for a key of the left / right section is in the result *)
+Lemma user_values_kept user cfg side key v :
+  py_keys user -> upd (JDict default_short_configuration_input) user = Ok cfg ->
+  side = "left" \/ side = "right" ->
+  field user side key = Some v -> field cfg side key = Some (kept v).
+Proof.
+  intros PY U S F. unfold field in F.
+  destruct user as [| | | | | | | |top]; try discriminate. cbn [jget] in F.
+  destruct (lookup "input" top) as [[| | | | | | | |inp]|] eqn:L1; try discriminate. cbn [jget] in F.
+  destruct (lookup side inp) as [[| | | | | | | |sd]|] eqn:L2; try discriminate. cbn [jget] in F.
+  pose proof (py_keys_lookup _ _ _ PY L1) as P1. pose proof (py_keys_lookup _ _ _ P1 L2) as P2.
+  pose proof (py_keys_lookup _ _ _ P2 F) as P3.
+  destruct (upd_level top _ _ (proj1 (proj1 (py_keys_dict top) PY)) U) as (c0 & -> & _ & G0).
+  specialize (G0 _ _ L1). cbn [is_dict] in G0. destruct G0 as (n1 & U1 & C1).
+  cbn [upd_base lookup default_short_configuration_input String.eqb Ascii.eqb Bool.eqb] in U1.
+  destruct (upd_level inp _ _ (proj1 (proj1 (py_keys_dict inp) P1)) U1) as (c1 & -> & _ & G1).
+  specialize (G1 _ _ L2). cbn [is_dict] in G1. destruct G1 as (n2 & U2 & C2).
+  assert (E : exists ds, upd_base [("left", JDict [("nodata", JInt (-9999)); ("mask", JNull); ("classif", JNull); ("segm", JNull)]);
+                                   ("right", JDict [("nodata", JInt (-9999)); ("mask", JNull); ("classif", JNull); ("segm", JNull); ("disp", JNull)])]
+                                  side = JDict ds /\ forallb (fun kv => negb (is_dict (snd kv))) ds = true).
+  { destruct S as [-> | ->]; eexists; split; reflexivity. }
+  destruct E as (ds & Eb & Lv). rewrite Eb in U2.
+  destruct (upd_level sd _ _ (proj1 (proj1 (py_keys_dict sd) P2)) U2) as (c2 & -> & _ & G2).
+  specialize (G2 _ _ F).
+  unfold field. cbn [jget]. rewrite C1. cbn [jget]. rewrite C2. cbn [jget].
+  destruct (is_dict v) eqn:D.
+  - destruct G2 as (n3 & U3 & C3). rewrite C3. f_equal.
+    rewrite (upd_base_no_dict ds key (no_dict_at_leaves ds Lv key)) in U3.
+    destruct v; try discriminate. rewrite (upd_keeps_all (JDict d) P3 d eq_refl) in U3. now inversion U3.
+  - rewrite G2. now rewrite kept_leaf.
+Qed.
+
 (* ---------------------------------------------------------------- a documented form holds no dictionary value *)
 
 Lemma lookup_in_keys k (d : dict) v : lookup k d = Some v -> In k (keys d).
@@ -684,6 +767,72 @@ Proof.
     destruct (M r Kr F) as [-> | [-> | [-> | [-> | [-> | ->]]]]];
       [rewrite R1 in F | rewrite R2 in F | rewrite R3 in F | rewrite R4 in F | rewrite R5 in F | rewrite R6 in F];
       inversion F; subst; try exact Dr; try reflexivity; destruct v; try reflexivity; cbn in *; discriminate.
+Qed.
+
+(* ---------------------------------------------------------------- no accepted section holds a dictionary value *)
+
+(* when the part of check_input_section after update_conf returns, the json-checker validation
+   against one of the four schemas has accepted the configuration *)
+Lemma completed_accepts fs cfg : is_ok (pandora_check_completed fs cfg) = true ->
+  exists b1 b2, accepts (orc fs) (chosen_schema gen_schemas b1 b2) cfg = true.
+Proof.
+  unfold pandora_check_completed, check_completed. intro H.
+  destruct (subscript cfg "input") as [inp|]; [|discriminate]. cbn [bind] in H.
+  destruct (subscript inp "left") as [l|]; [|discriminate]. cbn [bind] in H.
+  destruct (subscript l "disp") as [ld|]; [|discriminate]. cbn [bind] in H.
+  destruct (if is_list ld then Ok false
+            else bind (subscript inp "right") (fun r => bind (subscript r "disp") (fun rd => Ok (is_str rd)))) as [rstr|];
+    [|discriminate]. cbn [bind] in H.
+  exists (is_list ld), rstr.
+  destruct (accepts (orc fs) (chosen_schema gen_schemas (is_list ld) rstr) cfg); [reflexivity | discriminate].
+Qed.
+
+Lemma keys_sub_lookup d key v : keys_sub d = true -> lookup key d = Some v ->
+  key = "img" \/ key = "nodata" \/ key = "mask" \/ key = "classif" \/ key = "segm" \/ key = "disp".
+Proof.
+  intros K L. unfold keys_sub in K. rewrite forallb_forall in K. specialize (K key (lookup_in_keys _ _ _ L)).
+  unfold side_keys in K. cbn [mem_str] in K.
+  repeat (match goal with H : String.eqb key ?s || _ = true |- _ =>
+            destruct (String.eqb key s) eqn:E; [apply String.eqb_eq in E; tauto | clear E; cbn [orb] in H] end).
+  discriminate.
+Qed.
+
+(* one side accepted by the schema: none of its values is a dictionary *)
+Lemma accepted_side_no_dict fs sd d key v :
+  In sd [sch_interval; sch_grid; sch_none] ->
+  accepts (orc fs) (SDict (ref_side sd)) (JDict d) = true -> lookup key d = Some v -> is_dict v = false.
+Proof.
+  intros Isd A L. rewrite accepts_side in A.
+  destruct (side_vals d) as [[[[[[a1 a2] a3] a4] a5] a6]|] eqn:Sv; [|discriminate].
+  destruct (side_vals_all d _ _ _ _ _ _ Sv) as (L1 & L2 & L3 & L4 & L5 & L6).
+  apply andb_prop in A as [K A]. repeat (match goal with H : _ && _ = true |- _ => apply andb_prop in H as [? ?] end).
+  destruct (keys_sub_lookup d key v K L) as [-> | [-> | [-> | [-> | [-> | ->]]]]];
+    [rewrite L1 in L | rewrite L2 in L | rewrite L3 in L | rewrite L4 in L | rewrite L5 in L | rewrite L6 in L];
+    inversion L; subst; destruct v; try reflexivity; try (cbn in *; discriminate).
+  cbn [In] in Isd. destruct Isd as [<- | [<- | [<- | []]]]; cbn in *; discriminate.
+Qed.
+
+Lemma completed_no_dict fs cfg side key v :
+  is_ok (pandora_check_completed fs cfg) = true -> side = "left" \/ side = "right" ->
+  field cfg side key = Some v -> is_dict v = false.
+Proof.
+  intros H S F. destruct (completed_accepts fs cfg H) as (b1 & b2 & A).
+  rewrite gen_schema_is_ref in A. unfold field in F.
+  destruct cfg as [| | | | | | | |top]; try discriminate. cbn [jget] in F.
+  destruct (lookup "input" top) as [[| | | | | | | |inp]|] eqn:L1; try discriminate. cbn [jget] in F.
+  destruct (lookup side inp) as [[| | | | | | | |sd]|] eqn:L2; try discriminate. cbn [jget] in F.
+  assert (E : exists sl sr, In sl [sch_interval; sch_grid; sch_none] /\ In sr [sch_interval; sch_grid; sch_none] /\
+              ref_schema b1 b2 = SDict [("input", false, SDict [("left", false, SDict (ref_side sl));
+                                                               ("right", false, SDict (ref_side sr))])]).
+  { destruct b1; [|destruct b2]; do 2 eexists; (split; [|split; [|reflexivity]]); cbn [In]; tauto. }
+  destruct E as (sl & sr & Il & Ir & E). rewrite E in A. clear E.
+  rewrite accepts_sdict in A. cbn [forallb skey_name skey_opt skey_schema fst snd map] in A. rewrite L1 in A.
+  apply andb_prop in A as [A _]. apply andb_prop in A as [A _].
+  rewrite accepts_sdict in A. cbn [forallb skey_name skey_opt skey_schema fst snd map] in A.
+  apply andb_prop in A as [A _]. apply andb_prop in A as [Al Ar]. apply andb_prop in Ar as [Ar _].
+  destruct S as [-> | ->]; rewrite L2 in *.
+  - exact (accepted_side_no_dict fs sl sd key v Il Al F).
+  - exact (accepted_side_no_dict fs sr sd key v Ir Ar F).
 Qed.
 
 (* ---------------------------------------------------------------- the whole function *)
